@@ -6,6 +6,7 @@
 //   cache/hit-window-of-last-insert    get_entry answers from the cache iff offset <= smallest TTL of the reply inserted LAST
 //                                      (a refilled slot takes the new lifetime, not the first occupant's)
 //   cache/served-ttl-aged-exactly      every TTL served = TTL of the last reply - whole seconds elapsed, never wrapped
+// plus long-lived entries (TTLs of 1 day, 2 days, 46 days) probed at ages around 65535 s, one day, two days and 46 days.
 // Child module of dns::cache, compiled only under cfg(test) in the scratch copy.
 use super::*;
 use crate::dns::dnspkt::*;
@@ -77,6 +78,29 @@ async fn verif_cache_contracts() {
                 let ok = p.answer.len() == last.len() && p.answer.iter().zip(last.iter()).all(|(rr, t)| (*t as u64) >= off && rr.ttl as u64 == *t as u64 - off);
                 t_ttl.check(ok, || format!("insertions {:?}, probe {} s after the last one: served TTLs {:?}, stored TTLs {:?}", h.iter().map(|s| &shapes[*s]).collect::<Vec<_>>(), off,
                     p.answer.iter().map(|r| r.ttl).collect::<Vec<_>>(), last));
+            }
+        }
+    }
+    // long-lived entries: ages beyond 16-bit second counts (65535 s = 18 h 12 min) and around one day
+    for ttls in [vec![86400u32, 172800, 172801], vec![172800], vec![4000000]] {
+        for off in [0u64, 3600, 65534, 65535, 65536, 65537, 70000, 86399, 86401, 172799, 172801, 3999999] {
+            let mut cache = Cache::new();
+            let r = reply(&name, &ttls);
+            let t0 = Instant::now();
+            let expiry = handler.calculate_expiry(&r);
+            handler.insert_cache_entry(&mut cache, ck.clone(), &r, expiry);
+            let t1 = Instant::now();
+            if t1 - t0 >= Duration::from_millis(300) { continue; }
+            let min_ttl = *ttls.iter().min().unwrap() as u64;
+            let now = t1 + Duration::from_secs(off);
+            let got = match std::panic::catch_unwind(std::panic::AssertUnwindSafe(|| CacheHandler::get_entry(&cache, &ck, now))) {
+                Ok(g) => g,
+                Err(_) => { t_ttl.check(false, || format!("TTLs {:?}, probe {} s after insertion: get_entry PANICKED", ttls, off)); continue; }
+            };
+            if off != min_ttl { t_win.check(got.is_some() == (off < min_ttl), || format!("TTLs {:?}, probe {} s after insertion: served from cache = {}", ttls, off, got.is_some())); }
+            if let Some(Ok(p)) = &got {
+                let ok = p.answer.len() == ttls.len() && p.answer.iter().zip(ttls.iter()).all(|(rr, t)| (*t as u64) >= off && rr.ttl as u64 == *t as u64 - off);
+                t_ttl.check(ok, || format!("TTLs {:?}, probe {} s after insertion: served TTLs {:?}", ttls, off, p.answer.iter().map(|r| r.ttl).collect::<Vec<_>>()));
             }
         }
     }
